@@ -13,7 +13,7 @@ def main():
                 "next_rule in any nesting over one variable, and for each the per-element expectation of the lexical reference "
                 "(Expected) and of the as-implemented node-graph + selector model (ImplFire) on the complete world (one element "
                 "per truth vector of the branch conditions); each program is built with real nested with-blocks and evaluated in "
-                "two domain orders, and once written in two steps (the branches in a first `with query:` block, the base conclusion in a second one); per element the set of inferred conclusion types is compared. Non-trivial = a program with at "
+                "two domain orders, and once written in two steps (the branches in a first `with query:` block, the base conclusion in a second one); per element the set of inferred conclusion types is compared (also for a rule extended after an evaluation and for the second of two iterables obtained back to back). Non-trivial = a program with at "
                 "least two branches; distinct by (program, domain order). The coverage index of the selectors (SeenSet.tla: add / check / "
                 "clear over partial assignments, with and without configured keys) is model-checked and all 3-operation behaviours replayed.")
     ctx.run_tlc("RuleTree", "RuleTree_mc_plain.cfg", expect="ok")          # on the unaffected shapes the implementation model meets the reference
@@ -34,11 +34,15 @@ def main():
     for p in progs[::2]:
         if p["prog"]:
             cases.append({"prog": p["prog"], "k": p["k"], "order": 0, "grow": True, "cases": p["cases"], "agree": p["agree"]})
+    # ... and evaluated through two iterables obtained back to back (the first consumed first, the second judged)
+    for p in progs[1::2]:
+        if p["prog"]:
+            cases.append({"prog": p["prog"], "k": p["k"], "order": 0, "held": True, "cases": p["cases"], "agree": p["agree"]})
     results = replay("ruletree", cases)
     ctx.replayed = len(cases)
     meets = 0
     for c, r in zip(cases, results):
-        key = [shape(c["prog"]), c["order"]] + (["two_steps"] if c.get("base_last") else []) + (["grown_after_evaluation"] if c.get("grow") else [])
+        key = [shape(c["prog"]), c["order"]] + (["two_steps"] if c.get("base_last") else []) + (["grown_after_evaluation"] if c.get("grow") else []) + (["second_of_two_iterables"] if c.get("held") else [])
         nb = shape(c["prog"]).count("ref") + shape(c["prog"]).count("alt") + shape(c["prog"]).count("next")
         ctx.case(key, nb >= 2, sample={"program": shape(c["prog"]), "order": c["order"], "observed": r.get("res")})
         if r.get("error"):
@@ -101,6 +105,14 @@ def main():
                                "expected_instances": exp2, "observed_per_domain_order": r["refalt"]},
                               note="branches that conclude over different variable sets: the inferred instances are not one per "
                                    "triggering binding")
+                break
+        for o in r["refalt_dup"]:
+            if isinstance(o, str) or sorted(map(list, {tuple(t) for t in o})) != exp2:
+                ctx.violation({"world": key, "template": "refinement with an alternative inside it; the base condition joins a further variable "
+                                                         "with two matches (two base bindings share the conclusion values)",
+                               "expected_instances": exp2, "observed_per_domain_order": r["refalt_dup"]},
+                              note="two base bindings that share the values of the conclusion variables: the refinement chain no longer "
+                                   "overrides its parent / the inferred instances differ from those of the rule without the extra variable")
                 break
     # the coverage index the selectors use for "already concluded for this binding" (SeenSet.tla)
     ctx.run_tlc("SeenSet", "SeenSet_mc.cfg", expect="ok")
